@@ -15,7 +15,7 @@ import (
 )
 
 const header = `From Shovel Require Import Base.Outcome Model.Config Model.Sql Model.Schema Corr.RunC16.
-From Coq Require Import List NArith. Import ListNotations. Open Scope N_scope.`
+From Coq Require Import List NArith String. Import ListNotations. Open Scope N_scope.`
 
 type desc struct {
 	Seed     uint64   `json:"seed"`
